@@ -37,7 +37,15 @@ def value_obs(prefix, outputs, kinds, numeric_data, nsk=6, timeout=120, info=Non
         def replay(ob, args, shape=shape, mk_a=mk_a, mk_b=mk_b, name=name):
             # trial 1: pairwise distinct finite data; trials 2..: NaN / inf injected into float inputs (the property
             # covers NaN/inf inputs; a term mismatch may only show there)
-            for trial, data in enumerate(special_value_trials(numeric_data)):
+            # (no NaN/inf trials where a reduction is involved: the value of a sum over non-finite data depends on its
+            #  order and factorisation -- outside the NaN-aware fragment)
+            try:
+                talg = TermAlg(kinds)
+                zero = tuple(0 for _ in shape)
+                with_red = _has_red(mk_a(talg)(zero)) or _has_red(mk_b(talg)(zero))
+            except Exception:  # noqa: BLE001
+                with_red = True
+            for trial, data in enumerate(special_value_trials(numeric_data) if not with_red else [numeric_data]):
                 nalg = NumAlg(data)
                 na, nb = mk_a(nalg), mk_b(nalg)
                 for idx in itertools.product(*[range(n) for n in shape]):
@@ -59,6 +67,15 @@ def value_obs(prefix, outputs, kinds, numeric_data, nsk=6, timeout=120, info=Non
         obs.append(FnOb(f"{prefix}/{name}", params, body, pre, [smp], timeout=timeout, replay=replay,
                         info={"output": name, "shape": list(shape), **(info or {})}))
     return obs
+
+
+def _has_red(t, depth=0):
+    from pv.sem.alg import Red
+    if isinstance(t, Red):
+        return True
+    if isinstance(t, tuple) and depth < 60:
+        return any(_has_red(x, depth + 1) for x in t)
+    return False
 
 
 def special_value_trials(data):
